@@ -89,26 +89,33 @@ def _poss(case):
     return [a, b, None]
 
 
+# degenerate / rejected inputs.  Only rejections the source spells out are demanded: the ValueErrors of
+# _get_labels_for_confusion_matrix, check_consistent_length in count, the empty-y_pred error of
+# selection_rate.  (Weight vectors of the wrong length are outside the property and not generated.)
 NUM_REJECT = [
     [[0, 1, 2], [0, 1, 2]], [[0, 1], [2, 2]], [[0, 1, 1], [1, 0, 2]], [[-1, 1], [0, 1]], [[0, -1], [0, -1]],
-    [[0, 1], [1]], [[1], [0, 1]], [[], []], [[0], []],
     [[5], [5]], [[2], [2]], [[2, 2], [2, 2]], [[2, 2], [5, 5]], [[0, 0], [0, 0]], [[1, 1], [1, 1]], [[-1], [-1]],
     [[1], [1]], [[0], [1]], [[1, 0], [1, 1]], [[7, 5], [5, 7]], [[3, 3, 4], [4, 3, 3]],
 ]
+NUM_LEN = [[[0, 1], [1]], [[1], [0, 1]], [[0], []]]          # count only
+NUM_EMPTY = [[[], []]]                                        # all but mean_prediction (numpy: nan + warning)
 STR_REJECT = [
     [["a", "b", "c"], ["a", "b", "c"]], [["a", "b"], ["c", "c"]], [["a"], ["a"]], [["b", "b"], ["b", "b"]],
-    [["a", "b"], ["b", "a"]], [["a", "b"], ["a"]], [["a", "a"], ["b", "b"]],
+    [["a", "b"], ["b", "a"]], [["a", "a"], ["b", "b"]],
 ]
+STR_LEN = [[["a", "b"], ["a"]]]                              # count only
 
 
 def _wopts_for(t, p, fn):
-    if fn == 6:
+    if fn == 6 or len(t) != len(p):
         return [None]
     n = len(p)
-    out = [None, [2] * n, [1, 2, 3, 1, 2][:n], [1] * (n + 1)]
-    if n >= 2:
-        out.append([3] * (n - 1))
-    return out
+    return [None, [2] * n, [1, 2, 3, 1, 2][:n]]
+
+
+def _reject_items(fn, base, length, empty):
+    items = list(base) + (list(length) if fn == 6 else []) + (list(empty) if fn != 5 else [])
+    return [[t, p, _wopts_for(t, p, fn)] for t, p in items]
 
 
 def cases(tier, seed):
@@ -123,10 +130,10 @@ def cases(tier, seed):
                     out.append({"kind": "block", "enc": enc, "n": n, "fn": fn, "part": part, "wseed": seed})
     for fn in range(7):
         out.append({"kind": "reject", "enc": "num", "fn": fn, "poss": [None, 1, 0, 5, 7, -1] if fn < 5 else [None],
-                    "items": [[t, p, _wopts_for(t, p, fn)] for t, p in NUM_REJECT]})
+                    "items": _reject_items(fn, NUM_REJECT, NUM_LEN, NUM_EMPTY)})
         if fn != 5:
             out.append({"kind": "reject", "enc": "str", "fn": fn, "poss": [None, "a", "b", "z"] if fn < 5 else [None],
-                        "items": [[t, p, _wopts_for(t, p, fn)] for t, p in STR_REJECT]})
+                        "items": _reject_items(fn, STR_REJECT, STR_LEN, [])})
     return out
 
 
